@@ -92,6 +92,9 @@ func c12Case(kind string, p, t *ref.T) core.Verdict {
 }
 
 func checkC12(c *core.Ctx) {
+	defer sweepC12(c)
+	defer soakC12(c)
+	defer gridC12C13(c, false)
 	np, nt := len(c12Preds), len(c12Targets)
 	pairs := np * nt
 	pt := func(code int) (float64, float64) { return c12Preds[code%np], c12Targets[code/np%nt] }
@@ -297,7 +300,7 @@ func c14Case(a actCfg, x *ref.T) core.Verdict {
 			for _, o := range offs {
 				s += got.V[o]
 			}
-			if math.Abs(s-1) > 1e-12 {
+			if math.Abs(s-1) > 1e-12*math.Max(1, float64(len(offs))/256) {
 				bad = fmt.Sprintf("fibre %d along dim %d sums to %v", ro, a.dim, s)
 			}
 		})
@@ -316,6 +319,9 @@ func shortT(t *ref.T) string {
 }
 
 func checkC14(c *core.Ctx) {
+	defer sweepC14(c)
+	defer soakC14(c)
+	defer gridC14(c)
 	var shapes [][]int
 	if c.Thorough() {
 		shapes = enum.Shapes(5, []int{1, 2, 3})
